@@ -11,6 +11,7 @@ pub mod glue;
 pub mod glue_gen;
 pub mod ir;
 pub mod judge;
+pub mod mirror;
 pub mod oracles;
 pub mod pipe;
 pub mod runner;
